@@ -147,6 +147,8 @@ def pts_preset(tier):
         for c0 in ((1 << w) - B, (1 << w) - 2 * B, (1 << w), (1 << w) - 8, (1 << (w + 1)) + B, (1 << (2 * w)) - 2 * B):
             for ln in (0, 1, B // 8 - cs // 8 - 1, B // 8 - cs // 8, B // 8, B // 8 + 1):
                 pts.append((n, c0, ln))
+        for k in range(11, 2 * w):
+            pts.append((n, (1 << k) - B, B // 8 + 1))
     return pts
 
 
@@ -162,6 +164,89 @@ def run_preset(ctx, pt):
     m = ramp(ln, 3, 1)
     r = ctx.attempt(lambda: o.update(m, padding=True))
     ctx.eq('C11/blake%d/counter-beyond-one-word' % n, r, ('ok', RB.blake(n, m, None, 0, h0=h0, t0=c0)))
+
+
+def pts_stream_salt(tier):
+    return [(n, k) for n in SIZES for k in (2, 3, 4)]
+
+
+def run_stream_salt(ctx, pt):
+    """incremental use with a (non-palindromic) salt: initstate(salt), k block-aligned updates, closing update"""
+    from crysp.blake import Blake
+    n, k = pt
+    B, cs = geom(n)
+    w = cs // 2
+    salt = int.from_bytes(expander(4 * w // 8, 11), 'big')
+    M = expander(k * B // 8 + 5, 12)
+    o = Blake(n)
+
+    def f():
+        o.initstate(salt=salt)
+        for j in range(k):
+            o.update(M[j * B // 8:(j + 1) * B // 8], padding=False)
+        return o.update(M[k * B // 8:], padding=True)
+    ctx.eq('C11/blake%d/salted-streaming' % n, ctx.attempt(f), ('ok', RB.blake(n, M, salt=salt)))
+
+
+def b2_compress_ref(v, h, blk, t, last):
+    """RFC 7693 compression F"""
+    w = 64 if v == 'b' else 32
+    mask = (1 << w) - 1
+    R = (32, 24, 16, 63) if v == 'b' else (16, 12, 8, 7)
+    rounds = 12 if v == 'b' else 10
+    iv = RB.IV512 if v == 'b' else RB.IV256
+    m = [int.from_bytes(blk[i * w // 8:(i + 1) * w // 8], 'little') for i in range(16)]
+    x = list(h) + list(iv)
+    x[12] ^= t & mask
+    x[13] ^= (t >> w) & mask
+    if last:
+        x[14] ^= mask
+
+    def ror(a, n_):
+        return ((a >> n_) | (a << (w - n_))) & mask
+
+    def G(a, b, c, d, p, q):
+        x[a] = (x[a] + x[b] + p) & mask; x[d] = ror(x[d] ^ x[a], R[0]); x[c] = (x[c] + x[d]) & mask; x[b] = ror(x[b] ^ x[c], R[1])
+        x[a] = (x[a] + x[b] + q) & mask; x[d] = ror(x[d] ^ x[a], R[2]); x[c] = (x[c] + x[d]) & mask; x[b] = ror(x[b] ^ x[c], R[3])
+    for r in range(rounds):
+        sg = RB.SIGMA[r % 10]
+        G(0, 4, 8, 12, m[sg[0]], m[sg[1]]); G(1, 5, 9, 13, m[sg[2]], m[sg[3]]); G(2, 6, 10, 14, m[sg[4]], m[sg[5]]); G(3, 7, 11, 15, m[sg[6]], m[sg[7]])
+        G(0, 5, 10, 15, m[sg[8]], m[sg[9]]); G(1, 6, 11, 12, m[sg[10]], m[sg[11]]); G(2, 7, 8, 13, m[sg[12]], m[sg[13]]); G(3, 4, 9, 14, m[sg[14]], m[sg[15]])
+    return [h[i] ^ x[i] ^ x[i + 8] for i in range(8)]
+
+
+def pts_b2preset(tier):
+    pts = []
+    for v in ('s', 'b'):
+        w = 64 if v == 'b' else 32
+        bl = 128 if v == 'b' else 64
+        for k in range(10, 2 * w):
+            pts.append((v, (1 << k) - bl, 1))
+            if k % 8 == 0 or k in (w - 1, w, w + 1, 2 * w - 4, 2 * w - 3, 2 * w - 2):
+                pts.append((v, (1 << k) - bl, bl + 1))
+                pts.append((v, (1 << k), 3))
+    return pts
+
+
+def run_b2preset(ctx, pt):
+    """non-initial state: byte counter preset just below every power of two 2^10..2^(2w)-1, then a closing update"""
+    v, t0, n = pt
+    bl = 128 if v == 'b' else 64
+    w = 64 if v == 'b' else 32
+    o = mk2(v)
+    o.initstate()
+    h0 = [int(x) for x in o.H.ival]
+    o.padmethod.bitcnt = 8 * t0
+    M = expander(n, 13)
+    r = ctx.attempt(lambda: o.update(M, padding=True))
+    h = list(h0)
+    t = t0
+    blocks = [M[i:i + bl] for i in range(0, len(M), bl)] or [b'']
+    for i, b_ in enumerate(blocks):
+        t += len(b_)
+        h = b2_compress_ref(v, h, b_.ljust(bl, b'\0'), t % (1 << (2 * w)), i == len(blocks) - 1)
+    exp = b''.join(x.to_bytes(w // 8, 'little') for x in h)
+    ctx.eq('C11/blake2%s/counter-beyond-one-word' % v, r, ('ok', exp))
 
 
 # ---- BLAKE2 -----------------------------------------------------------------------------
@@ -282,6 +367,9 @@ def subchecks():
         Sub('blake-singletons', pts_single, run_single, engine='P', bound='module-level blake224..512 on 9 lengths'),
         Sub('blake-preset-counters', pts_preset, run_preset, engine='H',
             bound='live object with preset chaining value and bit counter around 2^w, 2^(w+1), 2^(2w)-2B, then update(M, padding=True) with |M| in 6 classes; reference compression gets the explicit counter (0 for a padding-only block)'),
+        Sub('blake-salted-streaming', pts_stream_salt, run_stream_salt, engine='H', bound='initstate(salt) with a non-palindromic salt, 2..4 block-aligned updates, closing update, 4 digest sizes'),
+        Sub('blake2-preset-counters', pts_b2preset, run_b2preset, engine='H',
+            bound='BLAKE2s/2b live object with the byte counter preset to 2^k-blocklen for every k in 10..2w-1 (and 2^k at the word boundaries), closing update of 1 byte / one block+1 / 3 bytes; RFC 7693 compression written out as reference'),
         Sub('blake2-lengths', pts_b2len, run_b2len, engine='P', bound='BLAKE2s/2b x every byte length 0..4 blocks+1 and 5, 8, 16, 17, 33 (thorough 64, 65, 257) blocks -1/0/+1 byte x 2 patterns vs hashlib'),
         Sub('blake2-parameters', pts_b2par, run_b2par, engine='P',
             bound='every outlen 1..32/64 on 3 messages; salt/personalization in {empty, full}^2 (+outlen 20); fanout{0,1,2,255} x depth{1,2,255} x leaf{0,1,2^32-1} x node offset{0,1,max} x node depth{0,1,255} x inner{0,1,max}: full product (quick: at most 2 non-default) on a 1-block and a 3-block message vs hashlib'),
